@@ -27,6 +27,7 @@ type Env struct {
 	depth    int
 	callee   *FuncSpec // when evaluating a callee contract at a call site
 	prev     *State    // loop step clauses: state at the head of the current iteration
+	outer    *State    // inside old(): the state old() was evaluated in, for now(e)
 }
 
 func (st *State) newEnv(fr *Frame, res []Value) *Env {
@@ -34,6 +35,8 @@ func (st *State) newEnv(fr *Frame, res []Value) *Env {
 	if fr != nil {
 		if fr.fn.Pkg != nil {
 			env.pkg = fr.fn.Pkg.Pkg
+		} else if o := fr.fn.Origin(); o != nil && o.Pkg != nil {
+			env.pkg = o.Pkg.Pkg // instance of a generic function
 		}
 		if fr.spec != nil {
 			env.resNames = fr.spec.ResNames
@@ -739,11 +742,24 @@ func (env *Env) call(e *Expr) Value {
 		case "old":
 			sub := *env
 			sub.st = env.old
+			sub.outer = env.st
 			sub.vars = env.vars
 			if env.fr != nil {
 				// in old(), names denote entry values
 				sub.post = true
 			}
+			v := sub.eval(args[0])
+			env.defs = append(env.defs, sub.defs[len(env.defs):]...)
+			return v
+		case "now":
+			// now(e) inside old(...): e evaluated in the state the enclosing old() was written in
+			if env.outer == nil {
+				return env.eval(args[0])
+			}
+			sub := *env
+			sub.st = env.outer
+			sub.outer = nil
+			sub.vars = env.vars
 			v := sub.eval(args[0])
 			env.defs = append(env.defs, sub.defs[len(env.defs):]...)
 			return v
@@ -799,6 +815,10 @@ func (env *Env) call(e *Expr) Value {
 		case "writable":
 			v := env.eval(args[0])
 			return Value{T: B, Tm: Ne(StrOwn(v.Tm), IntLit(0))}
+		case "shared":
+			// a string made by util.StringFromBytes over memory that existed before the current call (a view, not a copy)
+			v := env.eval(args[0])
+			return Value{T: B, Tm: Eq(StrOwn(v.Tm), IntLit(1))}
 		case "isfresh":
 			v := env.eval(args[0])
 			t, _ := env.st.tryPtrTerm(v)
